@@ -388,6 +388,37 @@ def run(ck, facts):
     if ncb < 9:
         ck.bad("R3", "callback-capture-floor", "only %d callback parameters found in the generated corpus (9 counted)" % ncb)
 
+    # ---- R5 (cont.) what the C++ side wraps in unique_ptr is decided by the ownership the HIR records: a returned `&T` / `Option<&T>` lowers to MaybeOwn::Borrow, a returned
+    #      `Box<T>` / `Option<Box<T>>` to MaybeOwn::Own (an owned wrapper around a borrowed object destroys something Rust still owns)
+    core_u = facts.core
+    lo = core_u.fn("hir::lowering::LoweringContext::lower_out_type")
+    nown = 0
+
+    def _pnames(p_, out):
+        if isinstance(p_, dict):
+            if p_.get("k") == "variant":
+                out.append(p_.get("v"))
+            sub_ = p_.get("sub")
+            for z in (sub_ if isinstance(sub_, list) else ([sub_] if isinstance(sub_, dict) else [])):
+                _pnames(z, out)
+            for z in p_.get("alts") or []:
+                _pnames(z, out)
+        return out
+    for n, st in C.with_conditions_inl(core_u, C.fn_body(lo), depth=1):
+        if n.get("k") == "call" and (C.callee(n) or "").endswith("OpaquePath::new") and len(n.get("a") or []) >= 3:
+            kinds_ = [x for k_, a_, b_ in st if k_ == "arm" for x in _pnames(b_["pat"], []) if x in ("Reference", "Box")]
+            if not kinds_:
+                continue
+            own = C.strip(n["a"][2])
+            ctor = (own.get("ctor") or C.callee(own) or "").split("::")[-1]
+            want = "Borrow" if kinds_[-1] == "Reference" else "Own"
+            nown += 1
+            ck.expect(ctor == want, "R5", "hir::lower_out_type/%s-is-%s#%d" % (kinds_[-1], want, nown), "MaybeOwn::" + ctor,
+                      "a returned %s opaque is recorded as MaybeOwn::%s (expected %s): the C++ backend wraps it in std::unique_ptr, whose destructor calls the Rust destructor on an object "
+                      "Rust still owns (double drop / use after free)" % ("`&T`" if want == "Borrow" else "`Box<T>`", ctor, want), C.loc(lo, n.get("ln")))
+    if nown < 4:
+        ck.bad("R5", "hir::lower_out_type/ownership-floor", "only %d opaque out-type constructions under a Reference / Box arm found (4 counted)" % nown, C.loc(lo))
+
     # ---- R6 union-arm discipline of DiplomatResult: every access of `value.ok` / `value.err` (read, borrow, drop in place, assignment) happens on the
     #      edge of a test of the SAME object's `is_ok` that selects that arm (also in code added later: clone_from, map, as_mut, ...)
     ck.rule("R6", "every access of a DiplomatResult's union arm (`value.ok` / `value.err`) in the runtime is dominated by the matching edge of a test of that same object's is_ok flag")
